@@ -139,3 +139,62 @@ Lemma egress_loop2_example :
   poll_loop2 nat nat ex_dispatch2 Nat.pred 10 4%nat [2; 0; 3]%nat = Some (0%nat, [1; 0; 2]%nat, 1%nat) /\
   poll_loop2 nat nat ex_dispatch2 Nat.pred 10 20%nat [2; 0; 3]%nat = Some (11%nat, [0; 0; 0]%nat, 3%nat).
 Proof. vm_compute. split; reflexivity. Qed.
+
+(* ---- mixed socket sets: the hypotheses of [poll_loop2_returns] are closed under sums of component
+        kinds, so sets mixing several socket kinds need no further argument ---- *)
+Section SumComponents.
+  Variable E A B : Type.
+  Variable dA : E -> A -> E * A * dres.
+  Variable dB : E -> B -> E * B * dres.
+  Variable InvA : A -> Prop.
+  Variable InvB : B -> Prop.
+  Variable muA : A -> nat.
+  Variable muB : B -> nat.
+
+  Definition sum_dispatch (e : E) (s : A + B) : E * (A + B) * dres :=
+    match s with
+    | inl a => let '(e', a', r) := dA e a in (e', inl a', r)
+    | inr b => let '(e', b', r) := dB e b in (e', inr b', r)
+    end.
+  Definition sum_inv (s : A + B) : Prop := match s with inl a => InvA a | inr b => InvB b end.
+  Definition sum_mu (s : A + B) : nat := match s with inl a => muA a | inr b => muB b end.
+
+  Hypothesis invA : forall e s e' s' r, InvA s -> dA e s = (e', s', r) -> InvA s'.
+  Hypothesis sentA : forall e s e' s', InvA s -> dA e s = (e', s', RSent) -> (muA s' < muA s)%nat.
+  Hypothesis elseA : forall e s e' s' r, InvA s -> dA e s = (e', s', r) -> r <> RSent -> (muA s' <= muA s)%nat.
+  Hypothesis invB : forall e s e' s' r, InvB s -> dB e s = (e', s', r) -> InvB s'.
+  Hypothesis sentB : forall e s e' s', InvB s -> dB e s = (e', s', RSent) -> (muB s' < muB s)%nat.
+  Hypothesis elseB : forall e s e' s' r, InvB s -> dB e s = (e', s', r) -> r <> RSent -> (muB s' <= muB s)%nat.
+
+  Lemma sum_inv_step : forall e s e' s' r, sum_inv s -> sum_dispatch e s = (e', s', r) -> sum_inv s'.
+  Proof.
+    intros e [a|b] e' s' r HI H; cbn [sum_dispatch] in H.
+    - destruct (dA e a) as ((e1, a1), r1) eqn:Hd. inversion H; subst. exact (invA _ _ _ _ _ HI Hd).
+    - destruct (dB e b) as ((e1, b1), r1) eqn:Hd. inversion H; subst. exact (invB _ _ _ _ _ HI Hd).
+  Qed.
+  Lemma sum_mu_sent : forall e s e' s', sum_inv s -> sum_dispatch e s = (e', s', RSent) ->
+    (sum_mu s' < sum_mu s)%nat.
+  Proof.
+    intros e [a|b] e' s' HI H; cbn [sum_dispatch] in H.
+    - destruct (dA e a) as ((e1, a1), r1) eqn:Hd. inversion H; subst. exact (sentA _ _ _ _ HI Hd).
+    - destruct (dB e b) as ((e1, b1), r1) eqn:Hd. inversion H; subst. exact (sentB _ _ _ _ HI Hd).
+  Qed.
+  Lemma sum_mu_else : forall e s e' s' r, sum_inv s -> sum_dispatch e s = (e', s', r) -> r <> RSent ->
+    (sum_mu s' <= sum_mu s)%nat.
+  Proof.
+    intros e [a|b] e' s' r HI H Hr; cbn [sum_dispatch] in H.
+    - destruct (dA e a) as ((e1, a1), r1) eqn:Hd. inversion H; subst. exact (elseA _ _ _ _ _ HI Hd Hr).
+    - destruct (dB e b) as ((e1, b1), r1) eqn:Hd. inversion H; subst. exact (elseB _ _ _ _ _ HI Hd Hr).
+  Qed.
+
+  Theorem mixed_set_returns : forall pre fuel e ss,
+    Forall sum_inv ss -> (total2 (A + B) sum_mu ss < fuel)%nat ->
+    exists e' r n, poll_loop2 E (A + B) sum_dispatch pre fuel e ss = Some (e', r, n) /\
+                   (n + total2 (A + B) sum_mu r <= total2 (A + B) sum_mu ss)%nat /\
+                   length r = length ss /\ Forall sum_inv r.
+  Proof.
+    intros pre fuel e ss HI Hf.
+    exact (poll_loop2_returns E (A + B) sum_dispatch pre sum_inv sum_mu
+             sum_inv_step sum_mu_sent sum_mu_else fuel e ss HI Hf).
+  Qed.
+End SumComponents.
